@@ -619,6 +619,9 @@ func (ck *Check) master(tier string, seed int64, evidence, replays, known string
 		}
 		if f.Index >= 0 && f.Key != "hang" {
 			rep, want := 0, 5
+			if f.Details != nil && f.Details["expensive_to_reproduce"] == true {
+				want = 1 // e.g. an operation that never returns: every reproduction costs a full timeout
+			}
 			for k := 0; k < want; k++ {
 				t0 := time.Now()
 				cmd := exec.Command(self, "-replay", path)
